@@ -61,6 +61,7 @@ package mvp6_3
 //@   ensures forall i :: 0 <= i && i < len(m.executeUnits) ==> m.executeUnits[i].Coroutine.isStart
 //@   ensures len(m.decodeBus.queue) == 0 && len(m.decodeBus.buffer) == 0 && len(m.controlBus.queue) == 0 && len(m.controlBus.buffer) == 0 && len(m.executeBus.queue) == 0 && len(m.executeBus.buffer) == 0 && len(m.writeBus.queue) == 0 && len(m.writeBus.buffer) == 0
 //@   ensures len(m.ctx.PendingWriteRegisters) == 0 && len(m.ctx.PendingReadRegisters) == 0
+//@   ensures m.controlUnit.pendings != nil && fresh(m.controlUnit.pendings) && !m.controlUnit.pendingConditionalBranch && m.controlUnit.pushedRunnersInPreviousCycle == nil
 //@   loop 0: invariant wired(m) && m.executeUnits == old(m.executeUnits) && (forall i :: 0 <= i && i < _idx0 ==> m.executeUnits[i].Coroutine.isStart)
 //@   loop 0: invariant m.fetchUnit.pc == pc && !m.fetchUnit.complete && !m.decodeUnit.pendingBranchResolution && !m.decodeUnit.ret
 
@@ -77,6 +78,9 @@ package mvp6_3
 //@   -- (C03) an execute unit's error ends the run only if no flush was requested in the same cycle
 //@   -- by a unit scanned before it: a wrong-path instruction must not make the run fail (known finding F22)
 //@   return 0: !flush
+//@   -- when Run returns no register write is left speculative (final commit)
+//@   return 2: forall r risc.RegisterType :: !comp.has(m.ctx.transactionRAT, r)
+//@   return 2: forall r risc.RegisterType :: comp.has(m.ctx.committedRAT, r) ==> r in m.ctx.Registers && m.ctx.Registers[r] == comp.newest(m.ctx.committedRAT, r)
 //@   loop 0: invariant cycle >= 0 && wired(m)
 //@   loop 0: exit writesDone(m)
 //@   loop 0: exit executeUnitsIdle(m)
@@ -266,6 +270,9 @@ package mvp6_3
 // Setting up a forward touches the receive side (Receiver, ForwardRegister)
 // of no other in-flight instruction (F23). A pushed instruction is entered
 // in the scoreboard exactly once; a refused one leaves the scoreboard alone.
+// It overtakes the instructions skipped in this cycle only without conflict
+// with them; `ret` is pushed only when nothing is waiting ahead of it and no
+// conditional branch is unresolved; at most one branch is pushed per cycle.
 //@ spec func cuWired(u *controlUnit, ctx *risc.Context) bool = u != nil && u.outBus != nil && u.pushedRunnersInCurrentCycle != nil && risc.wfBoard(ctx) && risc.smallBoard(ctx) \
 //@    && (forall p *risc.InstructionRunnerPc :: p in u.pushedRunnersInPreviousCycle ==> p != nil && p.Runner != nil) \
 //@    && (forall i :: 0 <= i && i < len(u.skippedInCurrentCycle) ==> u.skippedInCurrentCycle[i].Runner != nil)
@@ -315,6 +322,9 @@ package mvp6_3
 //@   ensures push && runner.Receiver != old(runner.Receiver) ==> runner.ForwardRegister != risc.Zero && risc.readCount(runner.Runner, runner.ForwardRegister) > 0
 //@   ensures push && runner.Receiver != old(runner.Receiver) ==> (exists p *risc.InstructionRunnerPc :: p in u.pushedRunnersInPreviousCycle && p.Forwarder == runner.Receiver && risc.writeCount(p.Runner, runner.ForwardRegister) > 0)
 //@   ensures forall p *risc.InstructionRunnerPc :: p != runner && allocated(p) ==> p.Receiver == old(p.Receiver) && p.ForwardRegister == old(p.ForwardRegister)
+//@   ensures push ==> (forall i :: 0 <= i && i < len(u.skippedInCurrentCycle) ==> noConflict(runner.Runner, u.skippedInCurrentCycle[i].Runner))
+//@   ensures push && risc.insType(runner.Runner) == risc.Ret ==> old(len(u.outBus.queue)) == 0 && old(len(u.outBus.buffer)) == 0 && !u.pendingConditionalBranch
+//@   ensures push && risc.insType(runner.Runner).IsBranch() ==> !u.pushedBranchInCurrentCycle
 //@   ensures push ==> (forall r risc.RegisterType :: r != risc.Zero ==> ctx.PendingReadRegisters[r] == old(ctx.PendingReadRegisters[r]) + risc.readCount(runner.Runner, r) && ctx.PendingWriteRegisters[r] == old(ctx.PendingWriteRegisters[r]) + risc.writeCount(runner.Runner, r))
 //@   ensures !push ==> (forall r risc.RegisterType :: ctx.PendingReadRegisters[r] == old(ctx.PendingReadRegisters[r]) && ctx.PendingWriteRegisters[r] == old(ctx.PendingWriteRegisters[r]))
 
